@@ -394,7 +394,14 @@ def monitor_dependencies(w: World, wf_spec: dict[str, dict[str, Any]]) -> tuple[
             except Exception:
                 pass
     ids = w.refs
-    for e in w.ledger.entries:
+    # observation points: every task execution (ledger) and every durable NOT_STARTED->RUNNING of a stage
+    points: list[tuple[str, int, str]] = [(e["ref"], e["audit_seq"], "task") for e in w.ledger.entries]
+    by_id = {v: k for k, v in ids.items()}
+    for row in w.audit():
+        if row["tbl"] == "stage" and row["old"] == "NOT_STARTED" and row["new"] == "RUNNING" and row["id"] in by_id:
+            points.append((by_id[row["id"]], row["seq"], "start"))
+    for ref, seq, what in points:
+        e = {"ref": ref, "audit_seq": seq}
         spec = wf_spec.get(e["ref"])
         if not spec or not spec["deps"]:
             continue
@@ -412,7 +419,7 @@ def monitor_dependencies(w: World, wf_spec: dict[str, dict[str, Any]]) -> tuple[
         if jt == "OR":
             continue  # activated-branch bookkeeping is not reconstructed here (DESIGN C03 Outside)
         if ok_n < need:
-            return ("ran_before_dependencies/%s/%s" % (jt, e["ref"]), {"stage": e["ref"], "upstreams": dict(zip(spec["deps"], ups)), "need": need})
+            return ("ran_before_dependencies/%s/%s" % (jt, e["ref"]), {"stage": e["ref"], "upstreams": dict(zip(spec["deps"], ups)), "need": need, "observed_at": what})
         if any(u in ("TERMINAL", "CANCELED", "STOPPED") for u in ups) and jt in ("AND",):
             return ("ran_downstream_of_halted/%s" % e["ref"], {"stage": e["ref"], "upstreams": dict(zip(spec["deps"], ups))})
     return None
@@ -464,6 +471,7 @@ def schedule_run(
     ref_tag: str = "",
     ref_pre: Callable[[World], None] | None = None,
     setup: Callable[[World], None] | None = None,
+    window_at: Any = None,
 ) -> bool:
     """One worker; at choice point i the message delivered next is the choices[i]-th of the
     currently deliverable ones (at most ``fanout`` candidates), left un-acked if noack[i]; an
@@ -482,7 +490,9 @@ def schedule_run(
                 trace: list[Any] = []
                 injected: list[int] = []
                 step = 0
-                cp = 0  # choice points met so far (steps with more than one deliverable message)
+                cp = 0  # symbolic choices used so far
+                cp_seen = 0  # choice points met so far (steps with more than one deliverable message)
+                w0: int | None = None
                 while step < MAX_STEPS:
                     for sym, tag in ((inject_at, 1), (inject2_at, 2)):
                         if sym is not None and inject is not None and tag not in [t for t, _ in injected_tags(injected)]:
@@ -502,9 +512,15 @@ def schedule_run(
                         break
                     vis.sort(key=lambda r: (r["deliver_at"], r["id"]))
                     idx = 0
-                    if cp < len(choices) and len(vis) > 1:
-                        idx = hx.pick(choices[cp], min(len(vis), fanout))
-                        cp += 1
+                    if len(vis) > 1:
+                        if window_at is not None and w0 is None:
+                            # the window of symbolic choices starts at the choice point the solver picks
+                            if hx.decide_eq(window_at, cp_seen):
+                                w0 = cp_seen
+                        if (window_at is None or w0 is not None) and cp < len(choices):
+                            idx = hx.pick(choices[cp], min(len(vis), fanout))
+                            cp += 1
+                        cp_seen += 1
                     ack = True
                     if noack is not None and step < len(noack):
                         ack = not hx.decide(noack[step])
@@ -518,7 +534,7 @@ def schedule_run(
                 summ = summarize(snap)
                 nontrivial = any(i != 0 for i, _, _, _ in trace) or any(not a for _, _, _, a in trace) or bool(injected)
                 sample = {"workload": workload, "choices": [(i, n) for i, n, _, _ in trace if n > 1][: len(choices)],
-                          "noack": [not a for _, _, _, a in trace[: len(noack or [])]], "injected_at": [x % 100000 for x in injected],
+                          "noack": [not a for _, _, _, a in trace[: len(noack or [])]], "injected_at": [x % 100000 for x in injected], "window_at": w0,
                           "steps": step, "final": summ["workflow"]}
                 if nontrivial:
                     P.reached(json.dumps([(i, n, a) for i, n, _, a in trace if n > 1 or not a]) + str(injected), sample)
@@ -900,3 +916,41 @@ def forward_jump_run(choices: list[Any]) -> bool:
     with hx.Path("fwdjump") as P:
         ok = schedule_run("C15", "fwdjump", choices, monitors=("C02",), compare="counts")
     return ok
+
+
+# ----------------------------------------------------------------------------------------------- C09 redelivery
+def inject_restart(w: World) -> None:
+    """Worker restart without a crash in the middle of a handler: every in-memory structure
+    (duplicate filter included) is rebuilt; un-acked messages stay locked until their lock lapses."""
+    w.restart(expire_locks=False)
+
+
+def inject_filter_reset(w: World) -> None:
+    from stabilize.queue.dedup import get_deduplicator
+
+    get_deduplicator().reset()
+
+
+def post_handled_once(w: World, snap: dict[str, Any], info: dict[str, Any]) -> tuple[str, Any] | None:
+    """C09: once a handler returned for a message id (its effects and the processed record are
+    committed before the next delivery), no later delivery of that id enters a handler again."""
+    done: set[str] = set()
+    for mid, mtype, ev in w.handler_calls:
+        if ev == "enter" and mid in done:
+            return ("handled_again_after_commit/%s" % mtype, {"message_id": mid, "type": mtype})
+        if ev == "return":
+            done.add(mid)
+    return None
+
+
+def dedup_run(workload: str, noack: list[Any], inject_at: Any, what: str, trust: bool, choices: list[Any] | None = None) -> bool:
+    inj = {"restart": inject_restart, "reset": inject_filter_reset, "none": None}[what]
+    mode = {"disc2": "counts", "nofm23": "counts", "diamond_fail": "workflow", "choice": "workflow"}.get(workload, "reference")
+
+    def setup(w: World) -> None:
+        if trust:
+            w.trust_negative = True
+            w.processor.config.dedup_trust_negative_cache = True
+
+    return schedule_run("C09", workload, choices or [], noack=noack, inject_at=inject_at if inj else None, inject=inj,
+                        monitors=("C02",), compare=mode, post=post_handled_once, setup=setup)
